@@ -258,7 +258,37 @@ def body_detect(ctx, case):
         ctx.nontrivial(repr(case))
 
 
+def strat_many():
+    from hypothesis import strategies as st
+    return st.tuples(st.integers(40, 64), st.integers(5, 7), st.sampled_from([1, 2]), st.integers(0, 2 ** 31 - 1))
+
+
+def body_many(ctx, spec):
+    """dense pages: several hundred short ridges (more components than fit into one byte)."""
+    bands, per_band, ds, seed = spec
+    rs = np.random.RandomState(seed)
+    W = per_band * 60 + 20
+    H = bands * 16 + 24
+    ridges = []
+    for b in range(bands):
+        y = 12 + 16 * b
+        for k in range(per_band):
+            x0 = 8 + 60 * k + int(rs.randint(0, 6))
+            ridges.append(dict(x0=x0, x1=x0 + 30 + int(rs.randint(0, 12)), y=float(y), slope=0.0, asc=float(2 + (b + k) % 5), desc=float(1 + k % 3),
+                               amp=1.0, ends=False))
+    case = dict(H=H, W=W, ds=ds, ridges=ridges)
+    eng = make_engine()
+    m = paint(case)
+    desc = lambda: "bands=%d per_band=%d ds=%d seed=%d (%d ridges)" % (bands, per_band, ds, seed, len(ridges))
+    with contextlib.redirect_stdout(io.StringIO()):
+        res = ctx.must("parse_raises", eng.parse, m.copy(), ds)
+    match_lines(ctx, case, res[0], res[1], res[2], desc)
+    if len(ridges) > 255:
+        ctx.nontrivial(("many", spec))
+
+
 UNITS = [
     Unit("parse", "given", body=body_parse, strategy=strat_map(False), quick=400, thorough=8000),
+    Unit("many_ridges", "given", body=body_many, strategy=strat_many, quick=8, thorough=64, shards_quick=4),
     Unit("detect", "given", body=body_detect, strategy=strat_map(True), quick=200, thorough=4000),
 ]
